@@ -6,7 +6,7 @@ from .. import gen
 
 def worklist_program(rng, pid, dev, nops, unit=Fraction(1), maxunits=16, wlmax=None, fault=0.0, fault_last=False,
                      comps=True, big_geom=False, small=True, autosplit=True, diti=False, direct=False, flags=None,
-                     weights=None):
+                     weights=None, transfer_kw=None):
     """Generate (by driving the implementation) one program. Returns the replayable program."""
     lws = gen.random_labware(rng, small=small, maxunits=maxunits, big_geom=big_geom)
     wlmax = wlmax if wlmax is not None else rng.choice([2, 3, 5, maxunits])
@@ -24,7 +24,9 @@ def worklist_program(rng, pid, dev, nops, unit=Fraction(1), maxunits=16, wlmax=N
                 f = 1.0 if i == nops - 1 else 0.0
             kind = rng.choice(kinds)
             if kind == "transfer":
-                op, pres = gen.op_transfer(rng, sess, big, fault=f)
+                tk = dict(transfer_kw or {})
+                kw = gen.random_kw(rng) if tk.pop("kwargs", False) and rng.random() < 0.6 else None
+                op, pres = gen.op_transfer(rng, sess, big, fault=f, kw=kw, **tk)
             elif kind == "distribute":
                 op, pres = gen.op_distribute(rng, sess, min(big, wlmax), fault=f)
                 if op is None:
